@@ -1358,7 +1358,27 @@ class FileBuilder:
         Make the changes to the file system (including to ``_backups``
         and ``_build_dirs``) needed to apply the results of the
         suboperations of the specified cached ``ComplexOperation``
-        entry.
+        entry. If this raises an exception, then it has no effect on
+        ``_build_dirs``.
+        """
+        applied_filenames = []
+        try:
+            self._apply_cached_suboperations_helper(
+                operation, applied_filenames)
+        except Exception:
+            # Undo all of the calls to started_building_file
+            for filename in reversed(applied_filenames):
+                self._build_dirs.error_building_file(filename)
+            raise
+
+    def _apply_cached_suboperations_helper(self, operation, applied_filenames):
+        """Implementation of ``_apply_cached_suboperations``.
+
+        Arguments:
+            operation (ComplexOperation): The operation.
+            applied_filenames (list<str>): A list to which to append the
+                filenames we pass to
+                ``_build_dirs.started_building_file``, in order.
         """
         for suboperation in operation.suboperations:
             if (isinstance(suboperation, BuildFileOperation) and
@@ -1367,14 +1387,13 @@ class FileBuilder:
                 created_dirs = self._make_dirs(os.path.dirname(filename))
                 locked_created_dirs = self._build_dirs.started_building_file(
                     filename, created_dirs)
-                try:
-                    self._ensure_dirs_case(locked_created_dirs)
-                    self._apply_cached_suboperations(suboperation)
-                except Exception:
-                    self._build_dirs.error_building_file(filename)
-                    raise
+                applied_filenames.append(filename)
+                self._ensure_dirs_case(locked_created_dirs)
+                self._apply_cached_suboperations_helper(
+                    suboperation, applied_filenames)
             elif isinstance(suboperation, ComplexOperation):
-                self._apply_cached_suboperations(suboperation)
+                self._apply_cached_suboperations_helper(
+                    suboperation, applied_filenames)
 
     def _dirs_to_make(self, dir_, created_files):
         """Return the parents of ``dir_`` needed to create to make ``dir_``.
